@@ -1405,6 +1405,7 @@ class Interp:
                 fr.env[t.value.id] = nb
             elif isinstance(t.value, ast.Attribute) and isinstance(t.value.value, ast.Name) and t.value.value.id == "self":
                 self.ctx.selfenv[t.value.attr] = nb
+                self.emit("self_store", node, attr=t.value.attr, val=nb, how="item")      # self.x[...] = v changes the field x
             return
         self.ctx.note(f"unmodelled assignment target {type(t).__name__}")
 
